@@ -129,7 +129,8 @@ Corruptions ==
   \* actions
   \cup {Desc("set_top", <<>>, "action_space", v, "reject") :
           v \in {"[\"MOVE_FORWARD\",\"JUMP\"]", "[\"MOVE_FORWARD\",\"MOVE_FORWARD\"]", "[]"}}
-  \cup {Desc("set_top", <<>>, "action_space", "[\"MOVE_FORWARD\",\"TURN_LEFT\",\"TURN_RIGHT\"]", "accept")}
+  \cup {Desc("set_top", <<>>, "action_space", v, "accept") :
+          v \in {"[\"MOVE_FORWARD\",\"TURN_LEFT\",\"TURN_RIGHT\"]", "[\"TURN_RIGHT\",\"MOVE_FORWARD\",\"TURN_LEFT\",\"MOVE_BACKWARD\"]"}}
   \* object_type / distance_function parameters
   \cup UNION {(IF "object_type" \in DOMAIN CompAt(s)
                  THEN {Desc("set_value", s[2], "object_type", "\"NoSuchObject\"", "reject")} ELSE {})
